@@ -107,11 +107,13 @@ Definition ex3_flat : flat :=
    fl_errors_fail := false |}.
 Close Scope string_scope.
 
-Example ex3_frag : frag2 ex3_flat = true /\ frag1 ex3_flat = false /\ enumerates_b ex3_flat = true.
-Proof. vm_compute. repeat split. Qed.
-Example ex3_keys : List.length (keys_of ex3_flat) = 96 /\ List.length (accepted_keys ex3_flat) = 32 /\
-                   List.length (all_valid (code_sem ex3_flat)) = 32.
-Proof. vm_compute. repeat split. Qed.
-Example ex3_checks : check_sound ex3_flat = true /\ check_inj ex3_flat = true /\ check_complete ex3_flat = true /\
-                     check_accepted_count ex3_flat = true.
-Proof. vm_compute. repeat split. Qed.
+Example ex3_frag2 : frag2 ex3_flat = true. Proof. vm_compute. reflexivity. Qed.
+Example ex3_frag1 : frag1 ex3_flat = false. Proof. vm_compute. reflexivity. Qed.
+Example ex3_enum : enumerates_b ex3_flat = true. Proof. vm_compute. reflexivity. Qed.
+Example ex3_nkeys : List.length (keys_of ex3_flat) = 96. Proof. vm_compute. reflexivity. Qed.
+Example ex3_nacc : List.length (accepted_keys ex3_flat) = 32. Proof. vm_compute. reflexivity. Qed.
+Example ex3_nvalid : List.length (all_valid (code_sem ex3_flat)) = 32. Proof. vm_compute. reflexivity. Qed.
+Example ex3_sound : check_sound ex3_flat = true. Proof. vm_compute. reflexivity. Qed.
+Example ex3_inj : check_inj ex3_flat = true. Proof. vm_compute. reflexivity. Qed.
+Example ex3_complete : check_complete ex3_flat = true. Proof. vm_compute. reflexivity. Qed.
+Example ex3_acount : check_accepted_count ex3_flat = true. Proof. vm_compute. reflexivity. Qed.
